@@ -159,6 +159,15 @@ def run_mod_resume(run, m, lines, name, exits=None):
     while rest:
         rc, o, err = run_lines_watchdog(m["exe"], rest, per_line=WATCHDOG_S, env=SAN_ENV)
         if rc == "TIMEOUT" and len(o) < len(rest):
+            # on a machine shared with other jobs an answer may simply be late: ask once more, alone, with a long watchdog,
+            # before calling it a command that never returns
+            rc2, o2, err2 = run_lines_watchdog(m["exe"], [rest[len(o)]], per_line=12 * WATCHDOG_S, env=SAN_ENV)
+            if rc2 != "TIMEOUT" and len(o2) == 1:
+                with _LOCK:
+                    run.count("driver_answer_late(retried alone)")
+                out += o + [o2[0]]
+                rest = rest[len(o) + 1:]
+                continue
             out += o + ["TIMEOUT"]
             with _LOCK:
                 run.count("driver_command_never_returned")
@@ -640,6 +649,7 @@ def main(tier):
                     run.count("built")
                 elif not base_ok:
                     run.count("not_built_in_baseline_either")
+                    run.count("not_built_in_baseline_either(%s)" % mname)
                 elif "-fcompound-names" not in var.opts and m.get("asn1c_rc") and "-fcompound-names" in m.get("asn1c_out", ""):
                     # asn1c itself refuses: `FATAL: Use "-fcompound-names" flag to asn1c to resolve name clashes` (C10's business)
                     run.count("not_built_without_compound_names(asn1c diagnoses the name clash)")
